@@ -1041,6 +1041,10 @@ impl Ctx {
       _ => 3,
     };
     for _ in 0..mutations {
+      if ins.is_empty() {
+        // earlier mutations may have removed every input
+        ins.push((find("f2"), "std"));
+      }
       match self.rng.gen_range(0..14) {
         13 => {
           // the wallet would PAY the named amount instead of receiving it
